@@ -71,13 +71,37 @@ def build(targets):
     return rc == 0, out
 
 
+def modules_of(prop):
+    """the modules stating the theorems of a property: Props/<prop>.lean and Props/<prop><Suffix>.lean"""
+    d = os.path.join(LEAN, "JSL", "Props")
+    out = []
+    for f in sorted(os.listdir(d)):
+        if re.fullmatch(re.escape(prop) + r"([A-Z][A-Za-z0-9]*)?\.lean", f):
+            out.append("JSL.Props." + f[:-5])
+    return out
+
+
 def theorems_of(prop):
-    """names of the theorems stated in Props/<prop>.lean (the proof obligations of the property)"""
-    path = os.path.join(LEAN, "JSL", "Props", f"{prop}.lean")
-    if not os.path.exists(path):
-        return []
-    txt = strip_comments(open(path).read())
-    return re.findall(r"^\s*theorem\s+([A-Za-z0-9_.']+)", txt, flags=re.M)
+    """names of the theorems stated in Props/<prop>*.lean (the proof obligations of the property)"""
+    names = []
+    for m in modules_of(prop):
+        path = os.path.join(LEAN, *m.split(".")) + ".lean"
+        txt = strip_comments(open(path).read())
+        stack = []      # ("ns" | "sec", name)
+        for line in txt.splitlines():
+            m1 = re.match(r"^\s*namespace\s+(\S+)", line)
+            m2 = re.match(r"^\s*section(?:\s+(\S+))?\s*$", line)
+            m3 = re.match(r"^\s*end(?:\s+(\S+))?\s*$", line)
+            m4 = re.match(r"^\s*(?:@\[[^\]]*\]\s*)?(?:private\s+|protected\s+)?theorem\s+([A-Za-z0-9_.']+)", line)
+            if m1:
+                stack.append(("ns", m1.group(1)))
+            elif m2:
+                stack.append(("sec", m2.group(1) or ""))
+            elif m3 and stack:
+                stack.pop()
+            elif m4:
+                names.append(".".join([n for k, n in stack if k == "ns"] + [m4.group(1)]))
+    return names
 
 
 def audit(prop, thorough):
@@ -95,7 +119,7 @@ def audit(prop, thorough):
     if names:
         tmp = os.path.join(LEAN, f".audit_{prop}.lean")
         with open(tmp, "w") as fh:
-            fh.write(f"import JSL.Props.{prop}\nopen JSL\n" + "".join(f"#print axioms {n}\n" for n in names))
+            fh.write("".join(f"import {m}\n" for m in modules_of(prop)) + "".join(f"#print axioms {n}\n" for n in names))
         rc, out = sh(["lake", "env", "lean", tmp], cwd=LEAN, timeout=900)
         os.remove(tmp)
         if rc != 0:
@@ -110,7 +134,7 @@ def audit(prop, thorough):
             if not any(k == n or k.endswith("." + n) for k in axioms):
                 problems.append(f"no axiom report for {n}")
     if thorough and names:
-        rc, out = sh(["lake", "env", "leanchecker", f"JSL.Props.{prop}"], cwd=LEAN, timeout=3000)
+        rc, out = sh(["lake", "env", "leanchecker"] + modules_of(prop), cwd=LEAN, timeout=3000)
         if rc != 0:
             problems.append("leanchecker: " + out[-500:])
     return not problems, problems, axioms
@@ -270,7 +294,7 @@ def run_check(prop, tier, seed, t0):
         broken.append("model/driver no longer builds against the regenerated tables: " + tail_err(out_d))
     ok_p, out_p = (True, "")
     if has_props:
-        ok_p, out_p = build([f"JSL.Props.{prop}"])
+        ok_p, out_p = build(modules_of(prop))
         if not ok_p:
             broken.append(f"theorems of JSL.Props.{prop} no longer check: " + tail_err(out_p))
     names = theorems_of(prop)
@@ -359,8 +383,8 @@ def run_check(prop, tier, seed, t0):
     ev["coverage"] = {
         "obligations": max(1, len(names)),
         "discharged": (len(names) if (ok_p and ok_a and names) else 0) if names else 0,
-        "checker_cmd": f"cd /verif/lean && lake build JSL.Props.{prop} && lake env lean <#print axioms of {len(names)} theorems>"
-                       + (" && lake env leanchecker JSL.Props." + prop if tier == "thorough" else ""),
+        "checker_cmd": f"cd /verif/lean && lake build {' '.join(modules_of(prop))} && lake env lean <#print axioms of {len(names)} theorems>"
+                       + (" && lake env leanchecker " + " ".join(modules_of(prop)) if tier == "thorough" else ""),
         "trusted_base": registry.TRUSTED_BASE,
         "theorems": names,
         "axioms": axioms,
@@ -380,9 +404,12 @@ def run_check(prop, tier, seed, t0):
                            "instances_without_outages": sum(1 for r in good for l in r.get("out", []) if l.startswith("G ") and len(l.split()) >= 11 and l.split()[10] == "1"),
                            "tables_total_and_ready": sum(1 for r in good for l in r.get("out", []) if l.startswith("G ") and len(l.split()) >= 13 and l.split()[11:13] == ["1", "1"]),
                            "all_buffers_unordered_and_an_agv": sum(1 for r in good for l in r.get("out", []) if l.startswith("G ") and len(l.split()) >= 17 and l.split()[15:17] == ["1", "1"]),
+                           "in_the_class_of_c05_step_never_raises": sum(1 for r in good for l in r.get("out", []) if l.startswith("G ") and len(l.split()) >= 19 and l.split()[17] == "1"),
+                           "classic_instances_of_c06": sum(1 for r in good for l in r.get("out", []) if l.startswith("G ") and len(l.split()) >= 19 and l.split()[18] == "1"),
+                           "classic_run_hypotheses_confirmed": sum(1 for r in good for l in r.get("out", []) if l == "K 1 1 1"),
                            "outage_records_at_rest": sum(1 for r in good for l in r.get("out", []) if l.startswith("G ") and len(l.split()) >= 15 and l.split()[13:15] == ["1", "1"]),
                            "structural_guards_hold": sum(1 for r in good for l in r.get("out", []) if l.startswith("G 1 1 1 1")),
-                           "meaning": "G <wfB> <shapeB> <conservedB> <capB> <restB> <placedB> <nonnegB> <samples>=0> <detInstB> <noOutagesB> <tablesTotalB> <readyB> <outRestB> <outPastB> <flexInstB> <hasAgvB>: the first eight are the decidable hypotheses of the structural and schedule theorems (Start), evaluated on the real compiled instance and on the model; scenarios where a guard is 0 (e.g. a non-rest initial state written in the DSL) lie outside the theorems and are covered by the correspondence + monitors only; detInstB (no stochastic element) is the hypothesis of the seed-independence theorems of C13, noOutagesB that of C12's translation invariance, tablesTotalB/readyB those of C05's 'an offered transition applies without raising', outRestB/outPastB those of C10's outage-record invariants, flexInstB/hasAgvB those of C11's progress theorem"},
+                           "meaning": "G <wfB> <shapeB> <conservedB> <capB> <restB> <placedB> <nonnegB> <samples>=0> <detInstB> <noOutagesB> <tablesTotalB> <readyB> <outRestB> <outPastB> <flexInstB> <hasAgvB> <totalClassB> <classicInstB>: the first eight are the decidable hypotheses of the structural and schedule theorems (Start), evaluated on the real compiled instance and on the model; scenarios where a guard is 0 (e.g. a non-rest initial state written in the DSL) lie outside the theorems and are covered by the correspondence + monitors only; detInstB (no stochastic element) is the hypothesis of the seed-independence theorems of C13, noOutagesB that of C12's translation invariance, tablesTotalB/readyB those of C05's 'an offered transition applies without raising', outRestB/outPastB those of C10's outage-record invariants, flexInstB/hasAgvB those of C11's progress theorem, totalClassB (JSL/Model/Roomy.lean) the class in which no step raises (C05), classicInstB (JSL/Model/Classic.lean) the class of C06's reachability theorems; a line `K 1 1 1` after the reset of a scenario the generator calls classic confirms on the model side that the instance, the initial state and the fuel meet the hypotheses of ClassicRun"},
         "families": fams, "transitions_by_handler": stats, "error_classes_seen": errs,
         "env_steps": sum(r.get("steps", 0) for r in good),
         "monitor_findings_known": len(old), "monitor_findings_new": len(new),
